@@ -135,8 +135,8 @@ def check_image(meta, r, model_line, spec_script):
 def run_images(ctx, nprog, per_program):
     rng = ctx.rng
     programs, metas = [], []
-    for _ in range(nprog):
-        ops, sigs, has_omit = crashlib.writer_program(rng, ctx.tier)
+    for i in range(nprog):
+        ops, sigs, has_omit = crashlib.writer_program(rng, ctx.tier, no_fsr=(True if i % 5 == 1 else None))
         programs.append(ops)
         metas.append(dict(sigs=sigs, has_omit=has_omit))
     # regression corpus (committed; never written at run time): programs with the crash points that once failed; run first
